@@ -1,13 +1,533 @@
-(** C20 - lemmas. *)
-From Coq Require Import List NArith Bool String.
-From LinfaVerif Require Import Common.Num Common.NdSum C09.Model C20.Model gen.C20_seeds.
+(** C20 - lemmas: schedule independence of the parallel loops, order independence of the
+    hash-map consumers, obligations over the translated RNG / parallel-construct tables. *)
+From Coq Require Import List NArith Bool Permutation Sorted Reals Lra Lia Floats.
+From LinfaVerif Require Import Common.Num Common.NdSum Common.B32 C09.Model C09.Proofs C20.Model gen.C20_seeds.
 Import ListNotations.
+
+(** * 0. list toolkit *)
+Lemma nth_error_upd_same {A} (l : list A) k f :
+  nth_error (upd l k f) k = option_map f (nth_error l k).
+Proof. revert k; induction l as [|a l IH]; intros [|k]; simpl; auto. Qed.
+
+Lemma nth_error_upd_other {A} (l : list A) k i f : i <> k -> nth_error (upd l k f) i = nth_error l i.
+Proof.
+  revert k i; induction l as [|a l IH]; intros [|k] [|i] H; simpl; auto; try congruence.
+Qed.
+
+Lemma nth_error_extensional {A} : forall l1 l2 : list A,
+  (forall i, nth_error l1 i = nth_error l2 i) -> l1 = l2.
+Proof.
+  induction l1 as [|a l1 IH]; intros [|b l2] H; auto.
+  - specialize (H 0%nat); discriminate.
+  - specialize (H 0%nat); discriminate.
+  - f_equal; [specialize (H 0%nat); simpl in H; congruence|].
+    apply IH; intros i; exact (H (S i)).
+Qed.
+
+Lemma existsb_eqb_In i l : existsb (Nat.eqb i) l = true <-> In i l.
+Proof.
+  rewrite existsb_exists; split.
+  - intros [x [Hx E]]. apply Nat.eqb_eq in E; subst; auto.
+  - intros H; exists i; split; auto. apply Nat.eqb_refl.
+Qed.
+
+(** * 1. parallel loops *)
+Section ParProofs.
+Context {I C : Type}.
+
+Lemma run_sched_length (inp : I) (tasks : list (I -> C)) sched : forall init,
+  length (run_sched inp tasks sched init) = length init.
+Proof.
+  unfold run_sched; induction sched as [|j s IH]; intros init; simpl; auto.
+  rewrite IH. destruct (nth_error tasks j); auto. unfold set_cell; apply upd_length.
+Qed.
+
+(* cell i holds task i's value iff task i was scheduled at least once, the old content otherwise *)
+Lemma run_sched_spec (inp : I) (tasks : list (I -> C)) sched : forall init,
+  length init = length tasks ->
+  forall i, nth_error (run_sched inp tasks sched init) i =
+            if existsb (Nat.eqb i) sched then option_map (fun t => t inp) (nth_error tasks i)
+            else nth_error init i.
+Proof.
+  unfold run_sched; induction sched as [|j s IH]; intros init Hl i; simpl; auto.
+  set (init' := match nth_error tasks j with Some t => set_cell init j (t inp) | None => init end).
+  assert (Hl' : length init' = length tasks).
+  { unfold init'; destruct (nth_error tasks j); auto. unfold set_cell; rewrite upd_length; auto. }
+  rewrite (IH init' Hl' i).
+  destruct (existsb (Nat.eqb i) s) eqn:Es; [rewrite orb_true_r; reflexivity|].
+  rewrite orb_false_r. destruct (Nat.eqb i j) eqn:Eij.
+  - apply Nat.eqb_eq in Eij; subst j. unfold init'.
+    destruct (nth_error tasks i) as [t|] eqn:Et; simpl.
+    + unfold set_cell. rewrite nth_error_upd_same.
+      destruct (nth_error init i) eqn:Ei; simpl; auto.
+      exfalso. apply nth_error_None in Ei. assert (i < length tasks)%nat by (apply nth_error_Some; congruence). lia.
+    + apply nth_error_None. apply nth_error_None in Et. lia.
+  - apply Nat.eqb_neq in Eij. unfold init'. destruct (nth_error tasks j); auto.
+    unfold set_cell. apply nth_error_upd_other; auto.
+Qed.
+
+(** any schedule in which every task occurs (once or several times, in any order, whatever the
+    previous content of the output array) produces exactly the sequential result *)
+Lemma run_sched_covering (inp : I) (tasks : list (I -> C)) sched init :
+  length init = length tasks ->
+  (forall i, (i < length tasks)%nat -> In i sched) ->
+  run_sched inp tasks sched init = run_seq inp tasks.
+Proof.
+  intros Hl Hc. apply nth_error_extensional; intros i.
+  rewrite (run_sched_spec inp tasks sched init Hl i). unfold run_seq. rewrite nth_error_map.
+  destruct (existsb (Nat.eqb i) sched) eqn:E; auto.
+  destruct (Nat.lt_ge_cases i (length tasks)) as [Hi|Hi].
+  - apply Hc in Hi. apply existsb_eqb_In in Hi. congruence.
+  - assert (H1 : nth_error tasks i = None) by (apply nth_error_None; lia).
+    assert (H2 : nth_error init i = None) by (apply nth_error_None; lia).
+    rewrite H1, H2; reflexivity.
+Qed.
+
+Lemma perm_range_covers n sched : Permutation sched (seq 0 n) -> forall i, (i < n)%nat -> In i sched.
+Proof.
+  intros P i Hi. apply (Permutation_in i (Permutation_sym P)). apply in_seq; lia.
+Qed.
+End ParProofs.
+
+(** workers: the tasks are split into chunks, every worker runs its chunk in order, the pool
+    interleaves the workers arbitrarily *)
+Inductive interleave {A} : list (list A) -> list A -> Prop :=
+| il_done : forall chunks, Forall (fun ch => ch = []) chunks -> interleave chunks []
+| il_step : forall pre ch x post rest,
+    interleave (pre ++ ch :: post) rest -> interleave (pre ++ (x :: ch) :: post) (x :: rest).
+
+Lemma concat_all_nil {A} (chunks : list (list A)) : Forall (fun ch => ch = []) chunks -> concat chunks = [].
+Proof. induction 1 as [|ch chunks H _ IH]; simpl; auto. subst; auto. Qed.
+
+Lemma interleave_perm {A} (chunks : list (list A)) l : interleave chunks l -> Permutation l (concat chunks).
+Proof.
+  induction 1 as [chunks H|pre ch x post rest _ IH].
+  - rewrite concat_all_nil; auto.
+  - rewrite concat_app in *. simpl in *. rewrite <- Permutation_middle. constructor. exact IH.
+Qed.
+
+(** * 2. the k-means loops and the whole fit *)
+Section KMeansProofs.
+Context {F : Type} (o : NumOps F).
+
+Definition covers (n : nat) (s : list nat) : Prop := forall i, (i < n)%nat -> In i s.
+
+Lemma covers_seq n : covers n (seq 0 n).
+Proof. intros i Hi; apply in_seq; lia. Qed.
+
+Lemma km_tasks_length m (X : list (list F)) : length (km_tasks o m X) = length X.
+Proof. unfold km_tasks; apply map_length. Qed.
+
+Lemma km_tasks_seq m cs (X : list (list F)) : run_seq cs (km_tasks o m X) = assign o m cs X.
+Proof. unfold run_seq, km_tasks, assign. rewrite map_map. reflexivity. Qed.
+
+Lemma update_memberships_and_dists_covering m cs X s old :
+  length old = length X -> covers (length X) s ->
+  update_memberships_and_dists o m cs X s old = assign o m cs X.
+Proof.
+  intros Hl Hc. unfold update_memberships_and_dists. rewrite <- km_tasks_seq.
+  apply run_sched_covering; rewrite km_tasks_length; auto.
+Qed.
+
+Lemma update_cluster_memberships_covering m cs X s old :
+  length old = length X -> covers (length X) s ->
+  update_cluster_memberships o m cs X s old = predict o m cs X.
+Proof.
+  intros Hl Hc. unfold update_cluster_memberships, predict.
+  rewrite run_sched_covering; rewrite ?map_length; auto.
+  unfold run_seq. rewrite map_map. reflexivity.
+Qed.
+
+Lemma update_min_dists_covering m cs X s old :
+  length old = length X -> covers (length X) s ->
+  update_min_dists o m cs X s old = transform o m cs X.
+Proof.
+  intros Hl Hc. unfold update_min_dists, transform.
+  rewrite run_sched_covering; rewrite ?map_length; auto.
+  unfold run_seq. rewrite map_map. reflexivity.
+Qed.
+
+Lemma next_sched_covers n scheds s rest :
+  Forall (covers n) scheds -> next_sched n scheds = (s, rest) -> covers n s /\ Forall (covers n) rest.
+Proof.
+  intros H E. destruct scheds as [|s0 r]; simpl in E; inversion E; subst.
+  - split; [apply covers_seq | constructor].
+  - inversion H; subst; auto.
+Qed.
+
+Lemma assign_length m cs (X : list (list F)) : length (assign o m cs X) = length X.
+Proof. unfold assign; apply map_length. Qed.
+
+Lemma lloyd_par_eq m tol fuel X : forall cs scheds arr,
+  length arr = length X -> Forall (covers (length X)) scheds ->
+  let '(cs', rest, arr') := lloyd_par o m tol fuel cs X scheds arr in
+  cs' = lloyd o m tol fuel cs X /\ Forall (covers (length X)) rest /\ length arr' = length X.
+Proof.
+  induction fuel as [|f IH]; intros cs scheds arr Hl Hs; cbn [lloyd_par lloyd].
+  - auto.
+  - destruct (next_sched (length X) scheds) as [s rest] eqn:En.
+    destruct (next_sched_covers _ _ _ _ Hs En) as [Hc Hr].
+    rewrite (update_memberships_and_dists_covering m cs X s arr Hl Hc).
+    fold (step o m cs X).
+    destruct (ltb o (dist o m (concat cs) (concat (step o m cs X))) tol).
+    + repeat split; auto. apply assign_length.
+    + apply IH; auto. apply assign_length.
+Qed.
+
+Lemma one_run_par_eq m tol fuel init X scheds arr :
+  length arr = length X -> Forall (covers (length X)) scheds ->
+  let '(r, rest, arr') := one_run_par o m tol fuel init X scheds arr in
+  r = one_run o m tol fuel init X /\ Forall (covers (length X)) rest /\ length arr' = length X.
+Proof.
+  intros Hl Hs. unfold one_run_par.
+  pose proof (lloyd_par_eq m tol fuel X init scheds arr Hl Hs) as H.
+  destruct (lloyd_par o m tol fuel init X scheds arr) as [[cs rest] arr1].
+  destruct H as [Hcs [Hr Hl1]].
+  destruct (next_sched (length X) rest) as [s rest'] eqn:En.
+  destruct (next_sched_covers _ _ _ _ Hr En) as [Hc Hr'].
+  rewrite (update_memberships_and_dists_covering m cs X s arr1 Hl1 Hc).
+  subst cs. repeat split; auto. apply assign_length.
+Qed.
+
+Lemma restarts_par_eq m tol fuel X : forall inits best scheds arr,
+  length arr = length X -> Forall (covers (length X)) scheds ->
+  fst (fold_left (fun st init =>
+                    let '(best, (sc, arr)) := st in
+                    let '(r, sc', arr') := one_run_par o m tol fuel init X sc arr in
+                    (better o best r, (sc', arr')))
+                 inits (best, (scheds, arr)))
+  = fold_left (fun best init => better o best (one_run o m tol fuel init X)) inits best.
+Proof.
+  induction inits as [|i inits IH]; intros best scheds arr Hl Hs; simpl; auto.
+  pose proof (one_run_par_eq m tol fuel i X scheds arr Hl Hs) as H.
+  destruct (one_run_par o m tol fuel i X scheds arr) as [[r sc'] arr'].
+  destruct H as [Hr [Hs' Hl']]. subst r. apply IH; auto.
+Qed.
+
+Lemma fit_par_eq m tol fuel k inits X scheds :
+  Forall (covers (length X)) scheds ->
+  fit_par o m tol fuel k inits X scheds = fit o m tol fuel k inits X.
+Proof.
+  intros Hs. unfold fit_par, fit, restarts_par, restarts.
+  rewrite restarts_par_eq; auto. apply repeat_length.
+Qed.
+End KMeansProofs.
+
+(** a *reduction* taken in schedule order is not schedule independent in binary64 *)
+Lemma reduce_order_dependent_b64 :
+  reduce_in_order B64_ops [0x1p+53; 1; 1]%float [0; 1; 2]%nat
+  <> reduce_in_order B64_ops [0x1p+53; 1; 1]%float [1; 2; 0]%nat.
+Proof. intros H. apply (f_equal Prim2SF) in H. vm_compute in H. discriminate H. Qed.
+
+(** * 3. hash-order consumers *)
+
+(** ** sorting by pairwise distinct keys forgets the input order *)
+Section SortProofs.
+Context {A : Type}.
+Definition key_le (a b : N * A) : Prop := (fst a <= fst b)%N.
+
+Lemma insert_by_key_perm (e : N * A) l : Permutation (insert_by_key e l) (e :: l).
+Proof.
+  induction l as [|h t IH]; simpl; auto.
+  destruct (N.leb (fst e) (fst h)); auto.
+  rewrite IH. apply perm_swap.
+Qed.
+
+Lemma sort_by_key_perm (l : list (N * A)) : Permutation (sort_by_key l) l.
+Proof.
+  induction l as [|h t IH]; simpl; auto.
+  rewrite insert_by_key_perm. constructor; auto.
+Qed.
+
+Lemma insert_by_key_sorted (e : N * A) l :
+  StronglySorted key_le l -> StronglySorted key_le (insert_by_key e l).
+Proof.
+  induction l as [|h t IH]; intros S; simpl.
+  - constructor; auto.
+  - inversion S as [|? ? St Ht]; subst.
+    destruct (N.leb (fst e) (fst h)) eqn:E.
+    + apply N.leb_le in E. constructor; auto. constructor; auto.
+      eapply Forall_impl; [|exact Ht]. intros a Ha; unfold key_le in *; lia.
+    + apply N.leb_gt in E. constructor; auto.
+      apply (Permutation_Forall (x := e :: t)); [symmetry; apply insert_by_key_perm|].
+      constructor; auto. unfold key_le; lia.
+Qed.
+
+Lemma sort_by_key_sorted (l : list (N * A)) : StronglySorted key_le (sort_by_key l).
+Proof. induction l as [|h t IH]; simpl; [constructor | apply insert_by_key_sorted; auto]. Qed.
+
+Lemma nodup_keys_inj (l : list (N * A)) a b :
+  NoDup (map fst l) -> In a l -> In b l -> fst a = fst b -> a = b.
+Proof.
+  induction l as [|h t IH]; intros ND Ha Hb E; [contradiction|].
+  simpl in ND. inversion ND as [|? ? Hn ND']; subst.
+  destruct Ha as [Ha|Ha], Hb as [Hb|Hb]; subst; auto.
+  - exfalso; apply Hn. rewrite E. apply in_map; auto.
+  - exfalso; apply Hn. rewrite <- E. apply in_map; auto.
+Qed.
+
+Lemma sorted_perm_unique : forall l1 l2 : list (N * A),
+  StronglySorted key_le l1 -> StronglySorted key_le l2 ->
+  NoDup (map fst l1) -> Permutation l1 l2 -> l1 = l2.
+Proof.
+  induction l1 as [|a t1 IH]; intros l2 S1 S2 ND P.
+  - apply Permutation_nil in P; auto.
+  - destruct l2 as [|b t2]; [apply Permutation_sym, Permutation_nil in P; discriminate|].
+    inversion S1 as [|? ? S1' H1]; inversion S2 as [|? ? S2' H2]; subst.
+    assert (a = b).
+    { assert (Ha : In a (b :: t2)) by (apply (Permutation_in a P); left; auto).
+      assert (Hb : In b (a :: t1)) by (apply (Permutation_in b (Permutation_sym P)); left; auto).
+      destruct Ha as [Ha|Ha]; [auto|]. destruct Hb as [Hb|Hb]; [auto|].
+      rewrite Forall_forall in H1, H2. specialize (H1 b Hb). specialize (H2 a Ha).
+      unfold key_le in *. apply (nodup_keys_inj (a :: t1)); auto; [left; auto | right; auto | lia]. }
+    subst b. f_equal. apply IH; auto.
+    + simpl in ND; inversion ND; auto.
+    + apply Permutation_cons_inv with (a := a); auto.
+Qed.
+
+Lemma sort_by_key_order_free (l1 l2 : list (N * A)) :
+  NoDup (map fst l1) -> Permutation l1 l2 -> sort_by_key l1 = sort_by_key l2.
+Proof.
+  intros ND P. apply sorted_perm_unique; try apply sort_by_key_sorted.
+  - apply (Permutation_NoDup (l := map fst l1)); auto.
+    apply Permutation_map. symmetry. apply sort_by_key_perm.
+  - rewrite sort_by_key_perm. rewrite P. symmetry. apply sort_by_key_perm.
+Qed.
+End SortProofs.
+
+(** ** modal class: the repaired rule is a maximum for a strict total order on (label, weight) *)
+Local Open Scope R_scope.
+Definition worse (e b : N * R) : Prop := snd e < snd b \/ (snd b = snd e /\ (fst b < fst e)%N).
+Definition worse_eq (e b : N * R) : Prop := worse e b \/ e = b.
+
+Lemma modal_test_spec (e b : N * R) :
+  (ltb R_ops (snd e) (snd b) || (eqb R_ops (snd b) (snd e) && N.ltb (fst b) (fst e)))%bool = true <-> worse e b.
+Proof.
+  simpl. unfold worse. rewrite orb_true_iff, andb_true_iff, Rltb_true, Reqb_true, N.ltb_lt. tauto.
+Qed.
+
+Lemma worse_total (e b : N * R) : ~ worse e b -> worse_eq b e.
+Proof.
+  unfold worse_eq, worse. intros H. destruct e as [le we], b as [lb wb]; simpl in *.
+  destruct (Rtotal_order we wb) as [Hlt|[Heq|Hgt]].
+  - exfalso; apply H; auto.
+  - subst. destruct (N.lt_trichotomy lb le) as [Hl|[Hl|Hl]].
+    + exfalso; apply H; auto.
+    + subst; auto.
+    + left; right; auto.
+  - left; left; lra.
+Qed.
+
+Lemma worse_trans (a b c : N * R) : worse a b -> worse b c -> worse a c.
+Proof.
+  unfold worse. intros [H1|[H1 H1']] [H2|[H2 H2']].
+  - left; lra.
+  - left; lra.
+  - left; lra.
+  - right; split; [congruence|lia].
+Qed.
+
+Lemma worse_eq_trans (a b c : N * R) : worse_eq a b -> worse_eq b c -> worse_eq a c.
+Proof.
+  intros [H1|H1] [H2|H2]; subst; unfold worse_eq; auto. left; eapply worse_trans; eauto.
+Qed.
+
+Lemma worse_asym (a b : N * R) : worse a b -> worse b a -> False.
+Proof. unfold worse. intros [H1|[H1 H1']] [H2|[H2 H2']]; try lra; try lia. Qed.
+
+Lemma modal_fold_spec : forall l b m,
+  fold_left (modal_step R_ops) l (Some b) = Some m ->
+  (m = b \/ In m l) /\ worse_eq b m /\ forall e, In e l -> worse_eq e m.
+Proof.
+  induction l as [|e l IH]; intros b m H; simpl in H.
+  - inversion H; subst. repeat split; auto; [right; auto | intros e []].
+  - match type of H with context [if ?c then _ else _] => destruct c eqn:T end.
+    + apply modal_test_spec in T. destruct (IH b m H) as [Hin [Hb Hall]].
+      repeat split; auto.
+      * destruct Hin; [left | right; right]; auto.
+      * intros e' [He'|He']; [subst e'|auto]. apply worse_eq_trans with b; auto. left; auto.
+    + assert (T' : ~ worse e b) by (intros W; apply modal_test_spec in W; simpl in W; rewrite W in T; discriminate T).
+      apply worse_total in T'. destruct (IH e m H) as [Hin [He Hall]].
+      repeat split.
+      * destruct Hin; [right; left | right; right]; auto.
+      * apply worse_eq_trans with e; auto.
+      * intros e' [He'|He']; [subst e'|]; auto.
+Qed.
+
+Lemma modal_fold_none_iff (l : list (N * R)) : fold_left (modal_step R_ops) l None = None <-> l = [].
+Proof.
+  split; [|intros ->; auto]. destruct l as [|e l]; auto. simpl.
+  assert (G : forall l b, fold_left (modal_step R_ops) l (Some b) <> None).
+  { induction l0 as [|e' l' IH]; intros b; simpl; [discriminate|].
+    match goal with |- context [if ?c then _ else _] => destruct c end; apply IH. }
+  intros H; exfalso; eapply G; eauto.
+Qed.
+
+Lemma modal_max_spec (l : list (N * R)) m :
+  fold_left (modal_step R_ops) l None = Some m -> In m l /\ forall e, In e l -> worse_eq e m.
+Proof.
+  destruct l as [|b l]; simpl; [discriminate|]. intros H.
+  destruct (modal_fold_spec l b m H) as [Hin [Hb Hall]]. split.
+  - destruct Hin; [left | right]; auto.
+  - intros e [He|He]; subst; auto.
+Qed.
+
+Lemma modal_fold_perm (l1 l2 : list (N * R)) :
+  Permutation l1 l2 -> fold_left (modal_step R_ops) l1 None = fold_left (modal_step R_ops) l2 None.
+Proof.
+  intros P.
+  destruct (fold_left (modal_step R_ops) l1 None) as [m1|] eqn:E1;
+  destruct (fold_left (modal_step R_ops) l2 None) as [m2|] eqn:E2; auto.
+  - destruct (modal_max_spec _ _ E1) as [I1 M1]. destruct (modal_max_spec _ _ E2) as [I2 M2].
+    assert (W1 : worse_eq m2 m1) by (apply M1; apply (Permutation_in m2 (Permutation_sym P)); auto).
+    assert (W2 : worse_eq m1 m2) by (apply M2; apply (Permutation_in m1 P); auto).
+    destruct W1 as [W1|W1]; [|congruence]. destruct W2 as [W2|W2]; [|congruence].
+    exfalso; eapply worse_asym; eauto.
+  - apply modal_fold_none_iff in E2; subst. apply Permutation_sym, Permutation_nil in P; subst. discriminate.
+  - apply modal_fold_none_iff in E1; subst. apply Permutation_nil in P; subst. discriminate.
+Qed.
+
+(** ** the rule before F11 was order free only when the maximal weight is attained once *)
+Lemma modal_old_fold_spec : forall (l : list (N * R)) b m,
+  fold_left (modal_step_old R_ops) l (Some b) = Some m ->
+  (m = b \/ In m l) /\ snd b <= snd m /\ forall e, In e l -> snd e <= snd m.
+Proof.
+  induction l as [|e l IH]; intros b m H; simpl in H.
+  - inversion H; subst. repeat split; auto; [lra | intros e []].
+  - destruct (Rltb (snd e) (snd b)) eqn:T.
+    + apply Rltb_true in T. destruct (IH b m H) as [Hin [Hb Hall]]. repeat split; auto.
+      * destruct Hin; [left | right; right]; auto.
+      * intros e' [He'|He']; [subst; lra | auto].
+    + apply Rltb_false in T. destruct (IH e m H) as [Hin [He Hall]]. repeat split.
+      * destruct Hin; [right; left | right; right]; auto.
+      * lra.
+      * intros e' [He'|He']; [subst; lra | auto].
+Qed.
+
+Lemma modal_old_fold_some : forall (l : list (N * R)) b,
+  exists m, fold_left (modal_step_old R_ops) l (Some b) = Some m.
+Proof.
+  induction l as [|e l IH]; intros b; simpl; [eauto|]. destruct (Rltb (snd e) (snd b)); apply IH.
+Qed.
+
+Lemma pair_eq_dec_NR (a b : N * R) : {a = b} + {a <> b}.
+Proof.
+  destruct a as [n r], b as [n0 r0]. destruct (N.eq_dec n n0), (Req_EM_T r r0); subst;
+    [left; reflexivity | right; congruence | right; congruence | right; congruence].
+Qed.
+
+Lemma modal_old_unique_max (l : list (N * R)) m :
+  In m l -> (forall e, In e l -> e <> m -> snd e < snd m) -> modal_class_old R_ops l = Some (fst m).
+Proof.
+  intros Hin Hu. unfold modal_class_old. destruct l as [|b l]; [contradiction|]. simpl.
+  destruct (modal_old_fold_some l b) as [m' E]. rewrite E. simpl.
+  destruct (modal_old_fold_spec l b m' E) as [Hin' [Hb Hall]].
+  assert (I' : In m' (b :: l)) by (destruct Hin' as [->|Hi]; [left; reflexivity | right; exact Hi]).
+  assert (Hle : snd m <= snd m') by (destruct Hin as [Hi|Hi]; [subst b; exact Hb | apply Hall; exact Hi]).
+  destruct (pair_eq_dec_NR m' m) as [->|Hne]; [reflexivity|].
+  specialize (Hu m' I' Hne). lra.
+Qed.
+
+(** ** minimum over clusters (silhouette) *)
+Lemma min_over_some_spec : forall (l : list R) b m,
+  fold_left (fun acc v => match acc with None => Some v | Some mn => if ltb R_ops v mn then Some v else Some mn end)
+            l (Some b) = Some m ->
+  (m = b \/ In m l) /\ m <= b /\ forall v, In v l -> m <= v.
+Proof.
+  induction l as [|v l IH]; intros b m H; simpl in H.
+  - inversion H; subst. repeat split; auto; [lra | intros v []].
+  - destruct (Rltb v b) eqn:T.
+    + apply Rltb_true in T. destruct (IH v m H) as [Hin [Hv Hall]]. repeat split.
+      * destruct Hin; [right; left | right; right]; auto.
+      * lra.
+      * intros v' [Hv'|Hv']; [subst; lra | auto].
+    + apply Rltb_false in T. destruct (IH b m H) as [Hin [Hb Hall]]. repeat split; auto.
+      * destruct Hin; [left | right; right]; auto.
+      * intros v' [Hv'|Hv']; [subst; lra | auto].
+Qed.
+
+Lemma min_over_perm (l1 l2 : list R) : Permutation l1 l2 -> min_over R_ops l1 = min_over R_ops l2.
+Proof.
+  intros P. unfold min_over.
+  assert (NoneIff : forall l : list R,
+    fold_left (fun acc v => match acc with None => Some v | Some mn => if ltb R_ops v mn then Some v else Some mn end) l None = None -> l = []).
+  { destruct l as [|v l]; auto. simpl.
+    assert (G : forall (l : list R) b, fold_left (fun acc v => match acc with None => Some v | Some mn => if ltb R_ops v mn then Some v else Some mn end) l (Some b) <> None).
+    { induction l0 as [|v' l' IH]; intros b; simpl; [discriminate|]. destruct (Rltb v' b); apply IH. }
+    intros H; exfalso; eapply G; eauto. }
+  assert (Spec : forall (l : list R) m,
+    fold_left (fun acc v => match acc with None => Some v | Some mn => if ltb R_ops v mn then Some v else Some mn end) l None = Some m ->
+    In m l /\ forall v, In v l -> m <= v).
+  { destruct l as [|b l]; simpl; [discriminate|]. intros m H.
+    destruct (min_over_some_spec l b m H) as [Hin [Hb Hall]]. split.
+    - destruct Hin; [left | right]; auto.
+    - intros v [Hv|Hv]; subst; auto. }
+  destruct (fold_left _ l1 None) as [m1|] eqn:E1; destruct (fold_left _ l2 None) as [m2|] eqn:E2; auto.
+  - destruct (Spec _ _ E1) as [I1 M1]. destruct (Spec _ _ E2) as [I2 M2].
+    assert (m1 <= m2) by (apply M1; apply (Permutation_in m2 (Permutation_sym P)); auto).
+    assert (m2 <= m1) by (apply M2; apply (Permutation_in m1 P); auto).
+    f_equal; lra.
+  - apply NoneIff in E2; subst. apply Permutation_sym, Permutation_nil in P; subst. discriminate.
+  - apply NoneIff in E1; subst. apply Permutation_nil in P; subst. discriminate.
+Qed.
+
+(** ** sums: exact for integers and reals, order dependent in floating point *)
+Lemma fold_left_Nadd_perm (l1 l2 : list N) :
+  Permutation l1 l2 -> forall a, fold_left N.add l1 a = fold_left N.add l2 a.
+Proof.
+  induction 1 as [|x l l' _ IH|x y l|l l' l'' _ IH1 _ IH2]; intros a; simpl; auto.
+  - f_equal; lia.
+  - rewrite IH1; auto.
+Qed.
+
+Lemma fold_left_Rplus_perm (l1 l2 : list R) :
+  Permutation l1 l2 -> forall a, fold_left Rplus l1 a = fold_left Rplus l2 a.
+Proof.
+  induction 1 as [|x l l' _ IH|x y l|l l' l'' _ IH1 _ IH2]; intros a; simpl; auto.
+  - f_equal; lra.
+  - rewrite IH1; auto.
+Qed.
+
+(** sums of small integers are exact, hence order free, in any arithmetic that adds small
+    integers exactly (binary32 below 2^24: unit-weight class frequencies of the decision tree) *)
+Section SmallInt.
+Context {F : Type} (o : NumOps F) (bound : N).
+Hypothesis exact_add : forall a b, (a + b <= bound)%N -> add o (of_N o a) (of_N o b) = of_N o (a + b).
+Hypothesis of_N_0 : of_N o 0%N = zero o.
+
+Lemma fold_Nadd_mono (ns : list N) : forall a : N, (a <= fold_left N.add ns a)%N.
+Proof. induction ns as [|n ns IH]; intros a; simpl; [lia|]. specialize (IH (a + n)%N). lia. Qed.
+
+Lemma seq_sum_small_ints_acc (ns : list N) : forall a : N,
+  (fold_left N.add ns a <= bound)%N ->
+  fold_left (add o) (map (of_N o) ns) (of_N o a) = of_N o (fold_left N.add ns a).
+Proof.
+  induction ns as [|n ns IH]; intros a H; simpl in *; auto.
+  rewrite exact_add; [apply IH; auto|]. pose proof (fold_Nadd_mono ns (a + n)%N). lia.
+Qed.
+
+Lemma seq_sum_small_ints (ns : list N) :
+  (fold_left N.add ns 0 <= bound)%N -> seq_sum o (map (of_N o) ns) = of_N o (fold_left N.add ns 0%N).
+Proof. intros H. unfold seq_sum. rewrite <- of_N_0. apply seq_sum_small_ints_acc; auto. Qed.
+End SmallInt.
+
+Lemma gini_perm_R (l1 l2 : list R) : Permutation l1 l2 -> gini R_ops l1 = gini R_ops l2.
+Proof.
+  intros P. unfold gini, seq_sum. simpl.
+  rewrite (fold_left_Rplus_perm l1 l2 P 0).
+  f_equal. apply fold_left_Rplus_perm. apply Permutation_map. exact P.
+Qed.
+
+Close Scope R_scope.
+
+(** * 4. RNG construction sites and parallel constructs
+      (tables regenerated from the Rust sources by tools/c20_seeds2coq.py) *)
+From Coq Require Import String.
 Open Scope string_scope.
 
-(** * RNG construction sites (table regenerated from the Rust sources by tools/c20_seeds2coq.py) *)
-
 (* (file, function) pairs the statement excludes: permutation p-values, FastICA without a random
-   state, the k-means|| sampler with its per-thread streams, t-SNE *)
+   state (and its optional state that defaults to None), the k-means|| sampler with its
+   per-thread streams; t-SNE only fixes a seed that it hands to an external crate *)
 Definition excluded : list (string * string) :=
   [ ("src/correlation.rs", "p_values");
     ("algorithms/linfa-ica/src/fast_ica.rs", "fit");
@@ -18,7 +538,7 @@ Definition excluded : list (string * string) :=
 Definition in_excluded (file fn : string) : bool :=
   existsb (fun e => String.eqb (fst e) file && String.eqb (snd e) fn) excluded.
 
-(* estimators whose parameter builders (or fit) create a generator themselves: (file, type) *)
+(* estimators that create a generator themselves (parameter builder or fit): (file, impl type) *)
 Definition estimators : list (string * string) :=
   [ ("algorithms/linfa-clustering/src/k_means/algorithm.rs", "KMeans");
     ("algorithms/linfa-clustering/src/gaussian_mixture/hyperparams.rs", "GmmParams");
@@ -27,19 +547,101 @@ Definition estimators : list (string * string) :=
     ("algorithms/linfa-reduction/src/random_projection/algorithms.rs", "RandomProjection");
     ("algorithms/linfa-reduction/src/diffusion_map/algorithms.rs", "") ].
 
+Definition sites_of (e : string * string) : list site :=
+  filter (fun s => String.eqb (s_file s) (fst e) && String.eqb (s_type s) (snd e)) rng_sites.
+
+(* the seed of the estimator's own generator: defined only when it has at least one site and all are fixed literals *)
 Definition default_seed (e : string * string) : option N :=
-  match find (fun s => String.eqb (s_file s) (fst e) && String.eqb (s_type s) (snd e)) rng_sites with
-  | Some s => match s_kind s with Fixed n => Some n | _ => None end
-  | None => None
+  match sites_of e with
+  | [] => None
+  | s :: r => match s_kind s with
+              | Fixed n => if forallb (fun s' => match s_kind s' with Fixed _ => true | _ => false end) r
+                           then Some n else None
+              | _ => None
+              end
   end.
 
-Definition is_entropy (k : rng_kind) : bool :=
-  match k with Entropy _ | OptionalNone => true | _ => false end.
-Definition is_derived (k : rng_kind) : bool := match k with Derived _ => true | _ => false end.
+Definition is_fixed (k : rng_kind) : bool := match k with Fixed _ => true | _ => false end.
 
-Lemma defaults_seeded_b : forallb (fun e => match default_seed e with Some _ => true | None => false end) estimators = true.
+(* the three loops of k-means that write disjoint cells, and the excluded k-means|| sampler *)
+Definition known_parallel : list (string * string * string) :=
+  [ ("algorithms/linfa-clustering/src/k_means/algorithm.rs", "update_cluster_memberships", "par_for_each");
+    ("algorithms/linfa-clustering/src/k_means/algorithm.rs", "update_min_dists", "par_for_each");
+    ("algorithms/linfa-clustering/src/k_means/algorithm.rs", "update_memberships_and_dists", "par_for_each");
+    ("algorithms/linfa-clustering/src/k_means/init.rs", "sample_subsequent_candidates", "into_par_iter") ].
+
+Definition psite_known (p : psite) : bool :=
+  existsb (fun k => String.eqb (fst (fst k)) (p_file p) && String.eqb (snd (fst k)) (p_fn p)
+                    && String.eqb (snd k) (p_what p)) known_parallel.
+
+Lemma defaults_seeded_b :
+  forallb (fun e => match default_seed e with Some _ => true | None => false end) estimators = true.
 Proof. vm_compute. reflexivity. Qed.
 
-Lemma entropy_excluded_b :
-  forallb (fun s => negb (is_entropy (s_kind s) || is_derived (s_kind s)) || in_excluded (s_file s) (s_fn s)) rng_sites = true.
+Lemma non_fixed_excluded_b :
+  forallb (fun s => is_fixed (s_kind s) || in_excluded (s_file s) (s_fn s)) rng_sites = true.
 Proof. vm_compute. reflexivity. Qed.
+
+Lemma parallel_known_b : forallb psite_known par_sites = true.
+Proof. vm_compute. reflexivity. Qed.
+
+(** * 5. non-vacuity examples *)
+Example ex_schedule_covering : covers 4 [2; 0; 3; 1; 0]%nat.
+Proof.
+  intros i Hi. assert (H : (i = 0 \/ i = 1 \/ i = 2 \/ i = 3)%nat) by lia.
+  destruct H as [H|[H|[H|H]]]; subst i; simpl; auto 6.
+Qed.
+
+Example ex_interleave : interleave [[0; 1]; [2; 3]]%nat [2; 0; 3; 1]%nat.
+Proof.
+  apply (il_step [[0; 1]%nat] [3]%nat 2%nat []).
+  apply (il_step [] [1]%nat 0%nat [[3]%nat]).
+  apply (il_step [[1]%nat] [] 3%nat []).
+  apply (il_step [] [] 1%nat [[]]).
+  apply il_done. repeat constructor.
+Qed.
+
+Example ex_run_sched_b64 :
+  update_min_dists B64_ops L2 [[0]; [4]]%float [[1]; [3]; [5]]%float [2; 0; 1]%nat [0; 0; 0]%float
+  = [1; 1; 1]%float.
+Proof. vm_compute. reflexivity. Qed.
+
+Example ex_modal_tie :
+  modal_class B64_ops [(7%N, 2%float); (3%N, 2%float); (9%N, 1%float)] = Some 3%N /\
+  modal_class B64_ops [(3%N, 2%float); (9%N, 1%float); (7%N, 2%float)] = Some 3%N.
+Proof. vm_compute. auto. Qed.
+
+Example ex_modal_old_order_dependent :
+  modal_class_old B64_ops [(7%N, 2%float); (3%N, 2%float)] <> modal_class_old B64_ops [(3%N, 2%float); (7%N, 2%float)].
+Proof. vm_compute. intros H; discriminate H. Qed.
+
+Example ex_nb_old_order_dependent :
+  nb_predict_old B64_ops [(1%N, [0]%float); (2%N, [0]%float)] 1 <> nb_predict_old B64_ops [(2%N, [0]%float); (1%N, [0]%float)] 1.
+Proof. vm_compute. intros H; discriminate H. Qed.
+
+Example ex_hier_old_order_dependent :
+  hier_labels_old 3 [(4, [0; 1]); (2, [2])]%N <> hier_labels_old 3 [(2, [2]); (4, [0; 1])]%N.
+Proof. vm_compute. intros H; discriminate H. Qed.
+
+Example ex_sort_nodup : NoDup (map fst [(4, [0; 1]); (2, [2])]%N).
+Proof. repeat constructor; simpl; intuition discriminate. Qed.
+
+Example ex_gini_old_order_dependent_b64 :
+  gini_impurity_old B64_ops [(1%N, 0x1.999999999999ap-4%float); (2%N, 0x1.999999999999ap-3%float); (3%N, 0x1.3333333333333p-2%float)]
+  <> gini_impurity_old B64_ops [(3%N, 0x1.3333333333333p-2%float); (2%N, 0x1.999999999999ap-3%float); (1%N, 0x1.999999999999ap-4%float)].
+Proof. intros H. apply (f_equal Prim2SF) in H. vm_compute in H. discriminate H. Qed.
+
+(* three class weights whose Gini impurity depends on the summation order in binary64 *)
+Example ex_gini_order_dependent_b64 :
+  gini B64_ops [0x1.999999999999ap-4; 0x1.999999999999ap-3; 0x1.3333333333333p-2]%float
+  <> gini B64_ops [0x1.3333333333333p-2; 0x1.999999999999ap-3; 0x1.999999999999ap-4]%float.
+Proof. intros H. apply (f_equal Prim2SF) in H. vm_compute in H. discriminate H. Qed.
+
+(* binary32: integers add exactly up to 2^24 (spot check at the bound), and not beyond *)
+Example ex_b32_small_int_add :
+  sf_eqb (add B32.B32_ops (of_N B32.B32_ops 16777215) (of_N B32.B32_ops 1)) (of_N B32.B32_ops 16777216) = true /\
+  sf_eqb (add B32.B32_ops (of_N B32.B32_ops 16777216) (of_N B32.B32_ops 1)) (of_N B32.B32_ops 16777216) = true.
+Proof. vm_compute. auto. Qed.
+
+Example ex_unique_max : forall e, In e [(1%N, 2%R); (5%N, 3%R)] -> e <> (5%N, 3%R) -> (snd e < snd (5%N, 3%R))%R.
+Proof. intros e [H|[H|[]]] Hne; subst; simpl; [lra | congruence]. Qed.
